@@ -34,6 +34,7 @@ type Hooks struct {
 	OnOp        func(r *Run, op *Op) bool // property-specific op kinds; true = handled
 	BeforeHelper func(r *Run, op *Op, hc *HelperCall)
 	AfterTool   func(r *Run, tool string)
+	OpDone      func(r *Run, i int, op *Op) // always called after an operation (engine K bookkeeping)
 	Strict      []string                  // call-name prefixes whose unexpected errors are violations of this property
 }
 
@@ -57,6 +58,7 @@ type Run struct {
 	Feat   map[string]bool
 	Deep   bool // evaluate heavy oracles at this step
 	Ctx    map[string]any
+	Wrap   func(klevdb.Log) klevdb.Log
 }
 
 func (r *Run) logf(format string, a ...any) {
@@ -189,6 +191,9 @@ func (r *Run) open(o OpenOpts) error {
 	if err != nil {
 		return err
 	}
+	if r.Wrap != nil {
+		l = r.Wrap(l)
+	}
 	r.L, r.Opts, r.OOpts = l, opts, o
 	return nil
 }
@@ -232,12 +237,19 @@ func (r *Run) ExecOps() {
 			fs.CurSub = 0
 		}
 		r.execOp(op)
+		if r.H.OpDone != nil {
+			r.H.OpDone(r, i, op)
+		}
 		if r.stopped() {
 			break
 		}
 		if r.H.AfterStep != nil && r.L != nil {
 			r.H.AfterStep(r, op)
 		}
+	}
+	if fs := sim.FS; fs != nil {
+		fs.CurOp = int32(len(r.P.Ops) + 1)
+		fs.CurSub = 0
 	}
 	if r.L != nil {
 		if r.H.BeforeClose != nil && !r.stopped() {
@@ -576,6 +588,9 @@ func (r *Run) reopen(op *Op) {
 		if err != nil {
 			r.unexpected("Close", err)
 			return
+		}
+		if fs := sim.FS; fs != nil {
+			fs.CurSub = 1 // Close has returned
 		}
 		if r.H.AfterClose != nil {
 			r.H.AfterClose(r)
